@@ -16,6 +16,7 @@ import AM.Lemmas.MatcherClassicRT
 import AM.Lemmas.MatcherUTF8RT
 import AM.Lemmas.MatcherTotal
 import AM.Lemmas.MatcherFallbackRT
+import AM.Lemmas.MatcherListRT
 
 namespace AM.Mt
 open AM
@@ -50,6 +51,17 @@ theorem classic_roundtrip (ip : Nat → Bool) (compiles : Str → Bool) (m : Mat
     simp [hs']
   simp only [print, hres, hne, Bool.or_self, Bool.false_eq_true, if_false]
   exact classicMatcher_printed compiles op name v hn h.re
+
+/-- UTF-8 mode, lists: `parse.Matchers(ms.String()) = ms`, any length (including `{}`). -/
+theorem utf8_roundtrip_list (ip : Nat → Bool) (hp : ip 10 = false) (compiles : Str → Bool) (ms : List Matcher)
+    (h : ∀ m ∈ ms, WellFormed compiles m) : utf8Matchers compiles (printList ip ms) = .ok ms := by
+  apply utf8Matchers_braced
+  intro m hm
+  have hw := h m hm
+  obtain ⟨op, name, value⟩ := m
+  obtain ⟨n, rfl⟩ := valid_exists_chars hw.name
+  obtain ⟨v, rfl⟩ := valid_exists_chars hw.value
+  exact readsAs_print ip hp compiles op n v hw.re
 
 /-- the pinned printer differs from the repaired one only for the empty name -/
 theorem printPinned_eq_print (ip : Nat → Bool) (m : Matcher) (h : m.name ≠ []) :
